@@ -366,19 +366,23 @@ Definition seg_with_new_high (sg : seg) (val : N) : outcome seg :=
   do r <- seg_range sg;
   if (match r with Some (_, hi) => val <=? hi | None => false end) then Err
   else
-    do v1 <- cadd val 1;
     match sg with
     | SRange s e =>
+        do v1 <- cadd val 1;          (* every arm of Range builds `end: val + 1` first *)
         if s =? e then Ok (SRange val v1)
         else if val =? e then Ok (SRange s v1)
         else Ok (SHoles s v1 (EU64 (range_iter e val)))
     | SHoles s e h =>
+        (* the else arm collects the new holes before computing val + 1; a far u64::MAX would first try to
+           materialise them (not representable here; the harness does not execute that case) *)
+        do v1 <- cadd val 1;
         if val =? e then Ok (SHoles s v1 h)
         else Ok (SHoles s v1 (EU64 (earr_iter h ++ range_iter e val)))
     | SBitmap s e bm =>
+        do v1 <- cadd val 1;
         do gap <- csub val e;
         Ok (SBitmap s v1 (bm ++ repeat false (N.to_nat gap) ++ [true]))
-    | SSorted a => Ok (SSorted (earr_push_high a val))
+    | SSorted a => Ok (SSorted (earr_push_high a val))      (* no val + 1 here: u64::MAX is accepted *)
     | SArray a => Ok (SArray (earr_push_high a val))
     end.
 
@@ -680,6 +684,15 @@ Definition select_row_ids (q : rseq) (p : rbp) : outcome (list N) :=
   | PFrom s => do n <- csub (rs_len q) s; rs_slice q s n
   end.
 
+(* ---------- known-finding classes (DESIGN section 6: F9b, and the hole-count overflow found while modelling) ---------- *)
+(* F9b: the exclusive Range<u64> end (max + 1) cannot represent u64::MAX *)
+Definition Known_C34_u64max (l : list N) : bool := memN u64max l.
+(* an increasing list with so many holes that `24 + 4 * n_holes as usize` overflows (sorted_sequence_sizes) *)
+Definition Known_C34_span_overflow (l : list N) : bool :=
+  let st := compute_stats l in
+  st_sorted st && negb (st_count st =? 0)
+  && (two64 <=? 24 + 4 * (st_max st - st_min st + 1 - st_count st)).
+
 (* ---------- equality tests for the checkers ---------- *)
 Definition nlist_eqb := list_eqb N.eqb.
 Definition earr_eqb (a b : earr) : bool :=
@@ -704,18 +717,18 @@ Definition rseq_wf (q : rseq) : bool := forallb seg_wf q.
 (* from_slice: the chosen variant and encoding, or a panic *)
 Definition chk_from_slice (l : list N) (o : outcome seg) : bool := outcome_eqb seg_eqb (from_slice l) o.
 
-(* accessors of one (well-formed) segment; probes = indices for get and values for position/contains *)
+(* accessors of one (well-formed) segment; idxs = indices for get, vals = values for position/contains *)
 Definition seg_query_out : Type := N * list N * option (N * N) * list (option N) * list (option N) * list bool.
-Definition chk_seg_query (i : seg * list N) (o : seg_query_out) : bool :=
-  let '(sg, probes) := i in
+Definition chk_seg_query (i : seg * list N * list N) (o : seg_query_out) : bool :=
+  let '(sg, idxs, vals) := i in
   let '(len, it, rng, gets, poss, conts) := o in
   seg_wf sg
   && (seg_len sg =? len)
   && nlist_eqb (seg_iter sg) it
   && outcome_eqb (option_eqb nn_eqb) (seg_range sg) (Ok rng)
-  && list_eqb (option_eqb N.eqb) (map (seg_get sg) probes) gets
-  && list_eqb (option_eqb N.eqb) (map (seg_position sg) probes) poss
-  && list_eqb Bool.eqb (map (seg_contains sg) probes) conts.
+  && list_eqb (option_eqb N.eqb) (map (seg_get sg) idxs) gets
+  && list_eqb (option_eqb N.eqb) (map (seg_position sg) vals) poss
+  && list_eqb Bool.eqb (map (seg_contains sg) vals) conts.
 
 Inductive segop :=
 | OSlice (offset len : N)
